@@ -387,6 +387,42 @@ func runC09(env *lib.Env, rep *lib.Report) {
 			}
 		}
 	}
+	// ---- (v) long inputs: every corpus statement padded to each length around the scanner's
+	// refill boundaries (the vendored scanner reads its source in 1024-byte chunks) by a long
+	// string literal, a long identifier, a long run of blanks, and a long integer
+	rep.Bounds["(v) long inputs"] = "every corpus statement padded to total lengths 1000..1060, 2040..2060, 4090..4100, 8190..8200 and 70000 by a string literal / identifier / blanks / digits"
+	var lengths []int
+	for l := 1000; l <= 1060; l++ {
+		lengths = append(lengths, l)
+	}
+	for _, base := range []int{2040, 4090, 8190} {
+		for l := base; l <= base+20; l++ {
+			lengths = append(lengths, l)
+		}
+	}
+	lengths = append(lengths, 70000)
+	for _, q := range c09Corpus {
+		for _, total := range lengths {
+			pad := total - len(q) - 8
+			if pad < 1 {
+				continue
+			}
+			for _, mk := range []func(n int) string{
+				func(n int) string { return q + " '" + strings.Repeat("z", n) + "'" },
+				func(n int) string { return "SELECT '" + strings.Repeat("w", n) + "' , " + strings.TrimPrefix(q, "SELECT ") },
+				func(n int) string { return q + " " + strings.Repeat("i", n) },
+				func(n int) string { return strings.Repeat(" ", n) + q },
+				func(n int) string { return q + " " + strings.Repeat("7", n) },
+			} {
+				s := mk(pad)
+				if r.mine() {
+					r.prog.Set("text:long", fmt.Sprintf("%s…(%d bytes)", s[:40], len(s)))
+					res, err, pan := c09ParseText(s)
+					r.judge("text:long", fmt.Sprintf("%.60s…(%d bytes)", s, len(s)), res, err, pan)
+				}
+			}
+		}
+	}
 	rep.Bounds["inputs enumerated (all shards)"] = r.n
 	_ = os.Stderr
 }
